@@ -7,7 +7,7 @@ from ..core import Acc, Violation, guarded, run_hypothesis, shard_seed
 PROPERTY = 'C07'
 RULE = ('documents produced by the independent ZINC and JSON writers of C03/C05 (so the grids hold parser-made values: '
         'fixed-offset tzinfo from zone-less date-times with whole-hour offsets, plain-dict column metadata, ints from raw JSON '
-        'numbers, version labels 2.0/3.0, their short spellings 2 and 3, and the non-official 1.0, 2.5, 3.0.0, 4.0 with data legal under the label) are parsed '
+        'numbers, version labels 2.0/3.0, their short spellings 2 and 3, and the non-official 1.0, 2.0.1, 2.5, 3.0.0, 4.0 with data legal under the rules of the nearest official version) are parsed '
         'by hszinc; then (1) dump in both formats must not raise, (2) parsing each dump gives an equal grid (kind-strict '
         'comparator; six-decimal tolerance after a JSON hop; date-times by instant and offset), also along the chains '
         'ZINC->JSON->ZINC and JSON->ZINC->JSON, (3) dumping does not change the grid (model and row identity) and two dumps '
@@ -19,7 +19,7 @@ ASSUMPTIONS = ['zone-less date-times use whole-hour offsets -12..+14 (a zone wit
                'Bin values are not generated under the non-official labels 1.0/2.5 (which Bin spelling a 2.5 document uses is undefined)']
 FEATURES = {}
 EXHAUSTIVE_CLAIM = False
-ALIASES = {'2.0': ['2.0', '2', '1.0', '2.5'], '3.0': ['3.0', '3', '3.0.0', '4.0']}
+ALIASES = {'2.0': ['2.0', '2', '1.0', '2.0'], '3.0': ['3.0', '3', '3.0.0', '4.0', '2.5', '2.0.1']}
 
 
 def relabel(m, pick):
@@ -32,7 +32,7 @@ def relabel(m, pick):
         if v[0] == 'dict':
             return ['dict', [[k, rv(x)] for k, x in v[1]]]
         return v
-    ver = ALIASES[m[1]][pick % 4]
+    ver = ALIASES[m[1]][pick % len(ALIASES[m[1]])]
     return ['grid', ver, [[k, rv(v)] for k, v in m[2]], [[n, [[k, rv(v)] for k, v in cm]] for n, cm in m[3]],
             [[[c, rv(v)] for c, v in r] for r in m[4]]]
 
@@ -64,6 +64,7 @@ def check(case):
         raise Violation('source-parse', shown, 'source document holds %d grids, parse gave %d' % (len(want), len(g0s)))
     base = [model.to_model(g) for g in g0s]
     rows_before = [[id(r) for r in g] for g in g0s]
+    raw_before = [model.raw_snapshot(g) for g in g0s]
     arg = g0s if multi else g0s[0]
     texts = {}
     for fmt in ('zinc', 'json'):
@@ -71,8 +72,10 @@ def check(case):
         t1b = guarded('redump-raises', shown, hszinc.dump, arg, mode=_mode(fmt))
         if t1 != t1b:
             raise Violation('dump-not-deterministic', shown, 'two %s dumps of one grid differ' % fmt, (fmt,))
-        for b, g, rb in zip(base, g0s, rows_before):
+        for b, g, rb, raw in zip(base, g0s, rows_before, raw_before):
             d = model.diff(b, model.to_model(g))
+            if not d and model.raw_snapshot(g) != raw:
+                d = 'row dicts / metadata were touched (keys or value objects changed)'
             if d or [id(r) for r in g] != rb:
                 raise Violation('dump-mutated-grid', shown, 'dumping as %s changed the grid: %s' % (fmt, d or 'row objects replaced'), (fmt,))
         texts[fmt] = t1
@@ -152,12 +155,12 @@ def run(part, args, env):
     g = gen.spelled_grids(None, 2, excl, True, 3, 3, 2, src)
     strat = st.builds(lambda gs, picks, c, multi: {
         'src': src, 'grids': [relabel(m, p) for m, p in zip(gs, picks)], 'choices': c, 'multi': multi},
-        st.lists(g, min_size=1, max_size=2), st.lists(st.integers(0, 3), min_size=2, max_size=2), gen.spelling_plans(40),
+        st.lists(g, min_size=1, max_size=2), st.lists(st.integers(0, 11), min_size=2, max_size=2), gen.spelling_plans(40),
         st.booleans())
 
     def body(case):
         for m in case['grids']:
-            if m[1] in ('1.0', '2.5') and has_kind(m, ('bin',)):    # ('2' and '3' equal an official version: Bin is fine)
+            if m[1] in ('1.0', '2.5', '2.0.1') and has_kind(m, ('bin',)):    # ('2' and '3' equal an official version: Bin is fine)
                 acc.label('skipped:bin-under-unofficial-label')
                 return
         check(case)
